@@ -40,6 +40,8 @@ func propC08(w *World, r *Report) {
 	RunNarrowSuccControl(r)
 	r.Conds["classdef-format1-range"] = condFieldBoundedOrHuge(w, br08, "(opentype/classdef.Table).getEncInfo", "format1Size", 6+2*0xFFFF)
 	RunNarrowBound(w, r, succ, br08)
+	RunStrictChoice(w, r, succ, br08)
+	r.Floor("strictchoice", 1)
 	RunControl(r, "narrowbound", "ctlWrapBound|", func(cw *World, rr *Report, fns []*ssa.Function) { RunNarrowBound(cw, rr, fns, newBoundsRun(cw)) })
 	checkTagPad(w, r)
 	RunPrevSentinel(w, r, enc)
